@@ -16,7 +16,7 @@ import numpy as np
 from harness import common
 from harness.common import dylit, dylist, dymat, qlit
 
-HEADER = ("From Precond Require Import Base.QMat Base.PsdCheck C09.Check C01.Check.\n"
+HEADER = ("From Precond Require Import Base.PyLib Base.QMat Base.PyFloat Base.PsdCheck C09.Check C01.Ref C01.Check.\n"
           "Open Scope Q_scope.\n")
 TOL = "(1 # 1099511627776)"   # 2^-40
 U64 = 2.0 ** -53
@@ -103,20 +103,23 @@ def terms_for(r, an):
       out.append(("rayleigh", "if rayleigh_ok %s (dymat %s) (dyvec %s) %s then 0%%Z else 1%%Z" % (
           TOL, dymat(masked(r)), dylist(r["pi_vin"]), q(r["pi_s"]))))
   for t in r.get("transitions", []):
-    out.append(("trans", "if newton_transition_ok %s %d%%nat %d%%nat %d%%positive %s (dymat %s) (dymat %s) "
-                "(dymat %s) (dymat %s) %s then 0%%Z else 1%%Z" % (
-                    TOL, N, s if (c.get("pad") or c.get("force_ps")) else N, p, q(r["alpha"]),
-                    dymat(t["M"]), dymat(t["H"]), dymat(t["M2"]), dymat(t["H2"]), q(t["err2"]))))
+    if not all(math.isfinite(x) for x in (t["err"], t["err2"], t["ratio2"])) or t["err"] == 0.0:
+      continue
+    out.append(("trans", "if newton_transition_ok %s %d%%nat %d%%nat %d%%positive %s (%d)%%Z (dymat %s) (dymat %s) %s "
+                "(dymat %s) (dymat %s) (dymat %s) %s %s (%d)%%Z then 0%%Z else 1%%Z" % (
+                    TOL, N, s if (c.get("pad") or c.get("force_ps")) else N, p, q(r["alpha"]), t["i"],
+                    dymat(t["M"]), dymat(t["H"]), q(t["err"]), dymat(t["M2"]), dymat(t["H2"]),
+                    dymat(t["Hold2"]), q(t["err2"]), q(t["ratio2"]), t["i2"])))
   for g in r.get("guards", []):
     items = "; ".join("(%d%%Z, %s, %s)" % (i, q(e), q(ra)) for i, e, ra in g
                       if math.isfinite(e) and math.isfinite(ra))
     if len([1 for i, e, ra in g if math.isfinite(e) and math.isfinite(ra)]) != len(g):
       continue
-    # all states but the last satisfy the guard, the last does not
+    # all states but the last satisfy the (translated) loop condition, the last does not
     out.append(("guard",
-                "let l := [%s] in if forallb (fun '(i, e, ra) => guard_s 100 i %s e ra) (removelast l) && "
-                "negb (let '(i, e, ra) := last l (0%%Z, 0, 0) in guard_s 100 i %s e ra) then 0%%Z else 1%%Z"
-                % (items, q(1e-6), q(1e-6))))
+                "let l := [%s] in if forallb (fun '(i, e, ra) => guard_s 100 i %s %s e ra) (removelast l) && "
+                "negb (let '(i, e, ra) := last l (0%%Z, 0, 0) in guard_s 100 i %s %s e ra) then 0%%Z else 1%%Z"
+                % (items, q(1e-6), q(1.2), q(1e-6), q(1.2))))
   return out
 
 
@@ -157,6 +160,33 @@ def impl_oracle(r, an):
   return bad
 
 
+def translator_obligations(ctx):
+  """Regenerate the translation of the Newton loop closures from /repo and re-prove it equal to
+  C01.Ref (the functions the trace simulation executes)."""
+  from tools import targets
+  text, errors = targets.generate_c01(common.REPO)
+  ctx.cov["obligations"] += 3
+  if errors:
+    ctx.proof_failure("translate matrix_inverse_pth_root._iter_body/_iter_condition", json.dumps(errors))
+    return
+  ok, out = ctx.gen_obligation("Gen", text)
+  if not ok:
+    ctx.proof_failure("compile gen/C01/Gen.v (translation of the Newton loop)", out[-2000:])
+    return
+  ctx.cov["discharged"] += 1
+  for fn in (targets.NEWTON_BODY, targets.NEWTON_COND):
+    names = " ".join(n for n, _ in fn.params)
+    ob = ("From Precond Require Import Base.PyLib Base.QMat Base.PyFloat.\nFrom Precond Require C01.Ref.\n"
+          "From PrecondGen Require C01.Gen.\n"
+          "Lemma gen_eq_%s : forall %s, C01.Gen.%s %s = C01.Ref.%s %s.\nProof. intros. reflexivity. Qed.\n"
+          % (fn.name, names, fn.name, names, fn.name, names))
+    ok, out = ctx.gen_obligation("GenEq_" + fn.name, ob)
+    if ok:
+      ctx.cov["discharged"] += 1
+    else:
+      ctx.proof_failure("GenEq_%s (Gen = Ref)" % fn.name, out[-2000:])
+
+
 def run(ctx):
   ctx.cov["rule"] = (
       "PSD matrices A = Q diag(lambda) Q^T with prescribed spectrum (n 1..5/8, rank 1..n, spread "
@@ -171,6 +201,7 @@ def run(ctx):
       "trace capture replaces jax.lax.while_loop by a Python loop under jax.disable_jit (same ops)",
       "LOBPCG-deflated variant is not exercised (lobpcg_standard is an oracle)"]
   ctx.proofs(["Properties/C01.v"], extra_targets=["theories/C01/Check.vo"], dirs=["C09"])
+  translator_obligations(ctx)
   cases = gen_cases(ctx)
   ctx.log("%d matrices" % len(cases))
   results = run_impl(cases)
